@@ -456,47 +456,52 @@ def filter_total(ctx, rule='C08.filter-total'):
 
 
 def seek_reset(ctx, rule='C08.seek-reset'):
-    """whoever installs a new search stack in a cursor also clears the `next_called` flag on every path"""
+    """whoever installs a new search stack in a cursor also re-initialises, on every path, the iteration state that `next` writes: the "position already handed out" flag
+    (cleared to false) and any other bool flag of the cursor that `next` sets (an `exhausted` / `done` fuse ...).  The flags are found by what `next` stores, not by name."""
     res = []
     F = ctx.facts
-    n = 0
-    for fn in F.fns:
-        st = stores_to_field(fn, 'Cursor', 'stack')
-        if not st or fn.name == 'new':
-            continue
-        n += 1
-        resets = [bb for bb, si, s in stores_to_field(fn, 'Cursor', 'next_called') if s['rv']['k'] == 'use' and op_const_val(s['rv']['op']) == 0]
-        rets = [b for b in fn.reach_from([0], avoid=set(resets)) if fn.term(b)['k'] == 'return']
-        if resets and not rets:
-            res.append(ok(rule, '%s installs a new stack and clears next_called on every path' % fn.qual, sites=1))
-        else:
-            res.append(bad(rule, '%s | new stack without clearing next_called' % fn.qual,
-                           '%s replaces the cursor\'s search stack (%s) but can return without setting next_called = false: the first next() after a seek would skip the entry the cursor '
-                           'was positioned on' % (fn.qual, fn.loc(st[0][0], st[0][1])), where=fn.loc(st[0][0], st[0][1])))
-    f = floor(rule, 'functions installing a new cursor stack', n, 1)
-    if f:
-        res.append(f)
-    # every other piece of iteration state that `next` writes (an `exhausted` / `done` fuse ...) must be re-initialised by whoever installs a new stack
     nx = ctx.A.get('<Cursor as Iterator>::next')
     cur = F.adt('Cursor')
-    if nx is not None and cur is not None:
-        X = ctx.x(nx)
-        flags = [f0['name'] for f0 in cur['variants'][0]['fields'] if f0['ty'] == 'bool' and f0['name'] != 'writable']
-        written = {fl for fl in flags if stores_to_field(X, 'Cursor', fl)}
-        for fn in F.fns:
-            if fn.name == 'new' or not stores_to_field(fn, 'Cursor', 'stack') or fn.trait:
+    if nx is None or cur is None:
+        return [unresolved(rule, 'Cursor / its next')]
+    X = ctx.x(nx)
+    flags = [f0['name'] for f0 in cur['variants'][0]['fields'] if f0['ty'] == 'bool' and f0['name'] != 'writable']
+    written = sorted(fl for fl in flags if stores_to_field(X, 'Cursor', fl))
+    f = floor(rule, 'bool flags of the cursor written by next', len(written), 1)
+    if f:
+        return [f]
+    # the flag that next sets to true when it hands out the current position: seek must clear it (false), the others only need re-initialising
+    handed = [fl for fl in written if any(s2['rv']['k'] == 'use' and op_const_val(s2['rv']['op']) == 1 for bb, si, s2 in stores_to_field(X, 'Cursor', fl))]
+    n = 0
+    for fn in sorted(F.fns, key=lambda g: g.path):
+        st = stores_to_field(fn, 'Cursor', 'stack')
+        if not st or fn.name == 'new' or fn.trait:
+            continue
+        n += 1
+        Y = ctx.x(fn)
+        okk = True
+        for fl in written:
+            if fl in handed:
+                resets = [bb for bb, si, s2 in stores_to_field(Y, 'Cursor', fl) if s2['rv']['k'] == 'use' and op_const_val(s2['rv']['op']) == 0]
+            else:
+                resets = [bb for bb, si, s2 in stores_to_field(Y, 'Cursor', fl)]
+            rets = [b for b in Y.reach_from([0], avoid=set(resets)) if Y.term(b)['k'] == 'return']
+            if resets and not rets:
                 continue
-            Y = ctx.x(fn)
-            for fl in sorted(written):
-                st = [bb for bb, si, s2 in stores_to_field(Y, 'Cursor', fl)]
-                rets = [b for b in Y.reach_from([0], avoid=set(st)) if Y.term(b)['k'] == 'return']
-                if st and not rets:
-                    continue
-                if fl == 'next_called':
-                    continue      # reported above
+            okk = False
+            if fl == 'next_called' or (len(written) == 1 and fl in handed):
+                res.append(bad(rule, '%s | new stack without clearing next_called' % fn.qual,
+                               '%s replaces the cursor\'s search stack (%s) but can return without setting `%s` = false: the first next() after a seek would skip the entry the cursor '
+                               'was positioned on' % (fn.qual, fn.loc(st[0][0], st[0][1]), fl), where=fn.loc(st[0][0], st[0][1])))
+            else:
                 res.append(bad(rule, '%s | new stack without resetting Cursor.%s' % (fn.qual, fl),
                                '%s installs a new search stack but can return without resetting the iteration flag `%s`, which Cursor::next sets: a cursor that was run to '
                                'its end and is then re-positioned keeps behaving as exhausted' % (fn.qual, fl), where='%s:%d' % (fn.file, fn.line)))
+        if okk:
+            res.append(ok(rule, '%s installs a new stack and re-initialises %s on every path' % (fn.qual, ', '.join(written)), sites=1))
+    f = floor(rule, 'functions installing a new cursor stack', n, 1)
+    if f:
+        res.append(f)
     return res
 
 
@@ -693,8 +698,12 @@ def key_order(ctx, rule='C08.key-order'):
             fns[(tr, f.name)] = f
     n = 0
 
+    # byte views of the carrier: `as_ref` and any inherent `fn(&self) -> &[u8]` it may be written through (a private `raw()` that holds the match)
+    view_fns = [g for g in F.fns if g.kind != 'Closure' and g.self_adt and last_seg(g.self_adt) == 'Bytes' and not g.trait and g.argc == 1 and g.locals[0]['ty'] == '&[u8]']
+    view_names = {'as_ref'} | {g.name for g in view_fns}
+
     def as_ref_of(e, i):
-        return e[0] == 'call' and last_seg(strip_generics(e[1])) == 'as_ref' and len(e[2]) == 1 and e[2][0] == ('arg', i)
+        return e[0] == 'call' and last_seg(strip_generics(e[1])) in view_names and len(e[2]) == 1 and e[2][0] == ('arg', i)
 
     for (tr, nm), same in ((('Ord', 'cmp'), 'cmp'), (('PartialEq', 'eq'), 'eq')):
         f = fns.get((tr, nm))
@@ -730,12 +739,50 @@ def key_order(ctx, rule='C08.key-order'):
     if f is not None:
         n += 1
         du = ctx.du(f)
-        okk = any(t['args'] and as_ref_of(du.sym(t['args'][0]), 1) for bb, t, c in calls_named(F, f, 'hash'))
-        if okk:
-            res.append(ok(rule, '%s hashes `self.as_ref()`' % f.qual, sites=1))
+        # equal byte strings must hash equally whatever variant holds them: `self` reaches the hasher only through `as_ref()`
+        def via_as_ref(e, depth=0):
+            """(mentions self at all, and only inside as_ref(self))"""
+            if not isinstance(e, tuple) or depth > 30:
+                return False, True
+            if e == ('arg', 1):
+                return True, False
+            if as_ref_of(e, 1):
+                return True, True
+            m, okk = False, True
+            for x in e[1:]:
+                for y in (x if isinstance(x, list) else [x]):
+                    if isinstance(y, tuple):
+                        m2, ok2 = via_as_ref(y, depth + 1)
+                        m, okk = m or m2, okk and ok2
+            return m, okk
+        offenders = []
+        fed = False
+        for bb in sorted(f.reachable_blocks()):
+            t = f.term(bb)
+            if t['k'] != 'call':
+                continue
+            c = callee_of(t)
+            nm = last_seg(strip_generics(c['path'])) if c else ''
+            if nm in view_names:
+                continue
+            for a in t['args']:
+                m, okk = via_as_ref(du.sym(a))
+                if m and okk:
+                    fed = fed or nm.startswith('hash') or nm.startswith('write')
+                elif m:
+                    offenders.append((f.loc(bb), nm))
+            # a match on the variant of self is a use that does not go through as_ref
+        for bb in sorted(f.reachable_blocks()):
+            for st in f.blocks[bb]['stmts']:
+                if st['k'] == 'assign' and st['rv']['k'] == 'discr' and st['rv'].get('adt') and last_seg(st['rv']['adt']) == 'Bytes':
+                    offenders.append((f.loc(bb), 'match on the variant'))
+        if fed and not offenders:
+            res.append(ok(rule, '%s feeds the hasher from `self.as_ref()` only' % f.qual, sites=1))
         else:
-            res.append(bad(rule, '%s | does not hash the bytes' % f.qual, '%s does not hash `self.as_ref()`: equal keys held in different variants would land in different hash buckets '
-                           '(the per-transaction bucket cache is a HashMap keyed by name)' % f.qual, where='%s:%d' % (f.file, f.line)))
+            res.append(bad(rule, '%s | hash does not go through as_ref() only' % f.qual,
+                           '%s uses `self` other than through `as_ref()` (%s): equal keys held in different variants can hash differently, and the per-transaction bucket cache, a HashMap '
+                           'keyed by name, then misses a bucket it holds' % (f.qual, '%s at %s' % (offenders[0][1], offenders[0][0]) if offenders else 'nothing derived from as_ref() reaches the hasher'),
+                           where='%s:%d' % (f.file, f.line)))
     # as_ref / size: every variant, its own payload
     nv = {v['vi']: v['name'] for v in adt['variants']}
     for key in (('AsRef', 'as_ref'), ('', 'size')):
@@ -743,6 +790,12 @@ def key_order(ctx, rule='C08.key-order'):
         if f is None:
             continue
         n += 1
+        if key[1] == 'as_ref':
+            e = ctx.du(f).sym({'k': 'move', 'p': {'l': 0, 'pr': []}})
+            if as_ref_of(e, 1):
+                g = [x for x in view_fns if x.name == last_seg(strip_generics(e[1]))]
+                if len(g) == 1:
+                    f = g[0]        # the match lives in the helper as_ref delegates to
         if key[1] == 'size':
             e = ctx.du(f).sym({'k': 'move', 'p': {'l': 0, 'pr': []}})
             if e[0] == 'call' and last_seg(strip_generics(e[1])) == 'len' and len(e[2]) == 1 and as_ref_of(e[2][0], 1):
